@@ -12,6 +12,12 @@ COMMON_ASSUMPTIONS = [
 K = lambda name, file, fn: dict(name=name, target=("oxidize-pdf-core/src/" + file, fn))
 
 PROPS = {
+    "C01": dict(
+        verus=["tokenizer", "runlength", "gss", "xrefstream", "glyf"],
+        kani=[K("c01_hex_digit_value", "parser/filters.rs", "hex_digit_value")],
+        level_text="panic-freedom (index, slice range, overflow, division), termination and output bounds proved per listed function for all inputs; the whole-program 'never crashes' claim is NOT made",
+        not_decided="the I/O shells (reader.rs, xref.rs parse/recovery, object_stream.rs, page_tree.rs), LZW dictionary growth, CCITT/JBIG2/DCT decoders, text extraction, allocation sizes, wall-clock bounds",
+    ),
     "C03": dict(
         verus=["xrefstream", "strings"],
         not_decided="byte offsets of classic xref entries ({:010} text), startxref, /Size, reference resolution, strict-parser acceptance (all in write_document's I/O sequence); names (see C30)",
